@@ -31,7 +31,8 @@ def _verify_one(task):
         cc = None
         if spec.get("cross_check", True):
             try:
-                cc = native.cross_check(spec, n=spec.get("cross_check_n", 40), seed=spec.get("_seed", 0))
+                n = spec.get("cross_check_n", 40) * (25 if spec.get("_tier") == "thorough" else 1)
+                cc = native.cross_check(spec, n=n, seed=spec.get("_seed", 0), max_tries=100 * n)
             except Exception:  # noqa: BLE001
                 cc = dict(evaluated=0, failures=[], skipped=traceback.format_exc()[-600:])
         return dict(key=key, ci=ci, cross_check=cc, obligations=[], error=None, trusted=[], inlined=[], used_contracts=[],
@@ -82,6 +83,12 @@ def run_property(prop, specs, tier="quick", seed=0, registry=None, extra_assumpt
     for k, s in specs.items():
         s.setdefault("prop", prop)
         s["_seed"] = seed
+        s["_tier"] = tier
+        if tier == "thorough" and not s.get("_thorough_budget_applied"):
+            # thorough tier: three times the solver budget per obligation (undecided obligations get a longer look) and 25
+            # times the native cross-check samples
+            s["z3_timeout_ms"] = 3 * int(s.get("z3_timeout_ms") or 20000)
+            s["_thorough_budget_applied"] = True
     _WORK["specs"], _WORK["registry"] = specs, registry  # inherited by fork (specs may hold lambdas)
     from .contracts import configurations
 
